@@ -234,16 +234,22 @@ def rule_floordiv(facts):
     return r
 
 
+def _cselazy(facts):
+    from .c02 import rule_cselazy
+    return rule_cselazy(facts, rule="C05-CSELAZY")
+
+
 def run(ctx):
     facts = ctx["facts"]
-    return [rule_null(facts), rule_prec(facts), rule_idxspace(facts), rule_3vl(facts), rule_floordiv(facts)]
+    return [rule_null(facts), rule_prec(facts), rule_idxspace(facts), rule_3vl(facts), rule_floordiv(facts), _cselazy(facts)]
 
 
 CLAIM = {
     "text": "MIR edge-dominance rule over every call of the user operation in the scalar executors and aggregate updaters (each format "
             "branch separately) — NULL inputs never reach an operation — and an ordering rule over the parser's precedence constants. These "
             "hold for all inputs by code shape; what each function computes is a value-level question outside static reach. Plus an index-space rule over every Validity::is_valid/set_valid/set_invalid call in the engine and readers: the row index never originates from Selection::get (validity is per logical row; physical slots differ for dictionary, constant and filtered arrays). Plus: the kernels of the non-strict operators AND / OR never run on the NULL-propagating executors (three-valued logic cannot be produced by a strict executor)."
-            " Plus FLOORDIV: the datetime functions never floor a signed value with (x / d) * d.",
+            " Plus FLOORDIV: the datetime functions never floor a signed value with (x / d) * d."
+            " Plus CSELAZY (shared with C02): the value of a CASE does not depend on whether CSE fired - CSE never hoists conditionally evaluated operands.",
     "note": "trusted: rustc MIR; validity inputs are identified from parameter types (&Array, &Validity, &[Array]); reference precedence order in rules/c05.py",
     "technique": "static analysis: MIR edge-dominance (sibling branches) + const-table ordering (rustc_private driver)",
 }
